@@ -22,10 +22,10 @@ import (
 )
 
 type ThreadOp struct {
-	Op   string `json:"op"` // stmt txn select refresh vacuum setwt setdl version extra memtable yield
-	Stmt *Stmt  `json:"stmt,omitempty"`
+	Op    string `json:"op"` // stmt txn select refresh vacuum setwt setdl version extra memtable yield
+	Stmt  *Stmt  `json:"stmt,omitempty"`
 	Stmts []Stmt `json:"stmts,omitempty"`
-	Tab  int    `json:"tab,omitempty"`
+	Tab   int    `json:"tab,omitempty"`
 }
 
 type ThreadStream struct {
@@ -36,9 +36,9 @@ type ThreadStream struct {
 }
 
 type ThreadCase struct {
-	Procs     int `json:"procs"`
-	SharedEPN int `json:"shared_epn"` // tables on the shared prefix use one rows-per-object setting
-	Streams []ThreadStream `json:"streams"`
+	Procs     int            `json:"procs"`
+	SharedEPN int            `json:"shared_epn"` // tables on the shared prefix use one rows-per-object setting
+	Streams   []ThreadStream `json:"streams"`
 }
 
 func genThreadCase(t *rapid.T) ThreadCase {
